@@ -445,13 +445,44 @@ def operands_template() -> str:
     return r
 
 
+class _Alpha(ast.NodeTransformer):
+    """locals (parameters and assigned names) renamed v0, v1, … in order of first occurrence; annotations dropped;
+    `x = x op e` read as `x op= e`"""
+
+    def __init__(self, local_names):
+        self.local_names, self.names = set(local_names), {}
+
+    def visit_Name(self, n):
+        if n.id in self.local_names:
+            return ast.copy_location(ast.Name(id=self.names.setdefault(n.id, f"v{len(self.names)}"), ctx=n.ctx), n)
+        return n
+
+    def visit_AnnAssign(self, n):
+        if n.value is None:
+            return None
+        return self.visit(ast.copy_location(ast.Assign(targets=[n.target], value=n.value), n))
+
+    def visit_Assign(self, n):
+        if (len(n.targets) == 1 and isinstance(n.targets[0], ast.Name) and isinstance(n.value, ast.BinOp)
+                and isinstance(n.value.left, ast.Name) and n.value.left.id == n.targets[0].id):
+            n = ast.copy_location(ast.AugAssign(target=n.targets[0], op=n.value.op, value=n.value.right), n)
+        return self.generic_visit(n)
+
+
 def scanner_facts() -> Dict[str, Any]:
+    import copy
     m = parse("src/xlate/c7n_to_cel.py")
     cls = find_class(m, SELF)
     f = find_func(cls.body, "top_level_logic")
-    body = strip_doc(f.body)
+    body = [st for st in strip_doc(f.body) if not (is_logger_call(st) or isinstance(st, ast.Pass))]
     consts = sorted({n.value for st in body for n in ast.walk(st) if isinstance(n, ast.Constant) and isinstance(n.value, str)})
-    dump = "\n".join(ast.dump(st, annotate_fields=False) for st in body)
+    params = [a.arg for a in f.args.args]
+    stored = [n.id for st in body for n in ast.walk(st) if isinstance(n, ast.Name) and isinstance(n.ctx, ast.Store)]
+    al = _Alpha(params + stored)
+    for p in params:
+        al.names[p] = f"v{len(al.names)}"
+    norm = [al.visit(copy.deepcopy(st)) for st in body]
+    dump = "\n".join(ast.dump(st, annotate_fields=False) for st in norm if st is not None)
     return {"consts": consts, "fingerprint": hashlib.sha1(dump.encode()).hexdigest()[:16]}
 
 
